@@ -643,6 +643,7 @@ pub(crate) async fn do_commit_detached_transaction(
                     commit_handler,
                     &dataset.base,
                     version,
+                    dataset.manifest.as_ref(),
                     write_config,
                     &transaction_file,
                 )
@@ -832,6 +833,7 @@ pub(crate) async fn commit_transaction(
                     commit_handler,
                     &dataset.base,
                     version,
+                    dataset.manifest.as_ref(),
                     write_config,
                     &transaction_file,
                 )
